@@ -57,4 +57,9 @@ C01TTCodeFails(c) ==
         \A r \in 0 .. 3 : (c.code[r + 1] = 1) <=>
             (IF c.t \in NullaryTypes THEN GateFn(c.t, <<>>) ELSE GateFn(c.t, RowBits(r, 2)))>>
   >>)
+
+(* kind "opcode": the synthesis encoder's Operation members: the 4-character code of the
+   operation named like gate type c.t must be the truth-table code of that type *)
+C01OpCodeFails(c) ==
+  FailSet(<< <<"synthesis-operation-code:" \o c.t, c.t \in OpTypes /\ TTCode(c.t) = c.code>> >>)
 =============================================================================
